@@ -31,8 +31,9 @@ struct Problem
                        // 3 only Y is rewritten (through a fresh getY()); J stays what the buffers hold,
                        // 4 only J is rewritten (through a fresh getJ()); Y stays what the buffers hold
   bool copy = false;    // before this problem the solver is replaced by a copy of itself (the original stays alive)
-  bool reconfigure = false; // before this problem the caller calls setEstimateSize(p) again with the size the solver already has:
-                        // like a fresh solver of that size, it has the identity preconditioner afterwards
+  bool reconfigure = false; // before this problem the caller calls setEstimateSize(p) again with the size the solver already has and
+                        // then states the preconditioner it wants (the statement does not say what setEstimateSize does to an
+                        // earlier preconditioner, so the check does not rely on either behaviour)
   bool resolve = false; // after the solve, solve the same data again with the other un-weighted path (paths 0/1 only)
 };
 
@@ -140,7 +141,8 @@ Outcome runHistory(const Plan & pl, Ctx & c)
       SIM_PROBE("continue_on_a_copy_of_the_solver");
     }
     if (pb.reconfigure) {
-      ls->setEstimateSize((size_t)p); curA = Mat::Identity(p, p); curB = Vec::Zero(p);
+      ls->setEstimateSize((size_t)p);
+      if (no & 1) {ls->setPreconditionner(curA, curB);} else {curA = Mat::Identity(p, p); curB = Vec::Zero(p); ls->setPreconditionner(curA);}
       SIM_PROBE("setEstimateSize_again_with_the_same_size");
     }
     bool grew = ls->setDataSize((size_t)m);
